@@ -512,7 +512,6 @@ func describeForestDiff(goLine, specLine string) string {
 	return "number of statements differs"
 }
 
-func quote(s string) string {
-	r := strings.NewReplacer("\n", "\\n", "\t", "\\t", "\r", "\\r", "\"", "\\\"", "\\", "\\\\")
-	return "\"" + r.Replace(s) + "\""
-}
+// quote prints s as a Go string literal: control characters, U+00A0, U+2028 and the other characters that
+// do not show are written as escapes.
+func quote(s string) string { return strconv.Quote(s) }
